@@ -259,6 +259,8 @@ def judge_case(prop, case, res, m, cfg, truth):
             sol = last["sol"]
             if sol is None or sol.get("objval_rc") != 0:
                 V.append(("C03|%s|objval-unavailable" % cfg["entry"], "no objective value after OPTIMAL"))
+            elif "value" not in truth:
+                C["truth-status-only(cover LP)"] = 1
             elif parse(sol["objval"]) != truth["value"]:
                 V.append(("C03|%s|value" % cfg["entry"], "objective %s != true optimum %s" % (sol["objval"], truth["value"])))
     return V, C, nontrivial
@@ -292,6 +294,9 @@ def gen_case(prop, tier, seed, stream, k):
         if stream == "medium":
             cfg["entry"] = rnd.choice(["exact-primal", "exact-dual", "exact-dual", "opt_dual"])
             cfg["maxit"] = None
+        if stream == "big":
+            cfg["entry"] = rnd.choice(["exact-primal", "exact-primal", "exact-dual", "exact-dual", "opt_primal", "opt_dual"])
+            cfg["maxit"] = None
     lines, slot = case_script(rnd, m, cfg)
     cid = "%s-%s-%d" % (prop, stream, k)
     return run.Case(cid, lines, dict(stream=stream, k=k, cfg=cfg)), m, cfg
@@ -309,7 +314,7 @@ def chunk(payload):
             c, m, cfg = gen_case(prop, tier, seed, stream, k)
             cases.append(c)
             info[c.id] = (m, cfg)
-        big = stream == "medium"
+        big = stream in ("medium", "big")
         res = run.run_cases(os.path.join(bindir, "qsdrive"), cases, wd, batch=payload.get("batch", 25), timeout=600 if big else 240)
         for c in cases:
             m, cfg = info[c.id]
@@ -342,6 +347,7 @@ def plan(prop, tier):
         P = [(f, n) for f in ["small-rand", "small-int", "degenerate", "illcond", "thin", "planted-opt", "tiny"]]
         P.append(("knife", 150 if q else 6000))
         P.append(("medium", 8 if q else 300))
+        P.append(("big", 24 if q else 800))
         return P
     if prop == "C02":
         n = 70 if q else 3000
@@ -352,6 +358,7 @@ def plan(prop, tier):
         P = [(f, n) for f in ["small-rand", "small-int", "degenerate", "illcond", "thin", "planted-opt", "planted-inf"]]
         P.append(("planted-unb", 60 if q else 1500))
         P.append(("knife", 300 if q else 10000))
+        P.append(("big", 40 if q else 1500))
         P.append(("tiny", 1000 if q else 30000))
         return P
     raise ValueError(prop)
@@ -372,10 +379,10 @@ def run_check(prop, tier, seed):
     payloads = []
     per = 15 if tier == "quick" else 60
     for stream, n in plan(prop, tier):
-        step = 2 if stream == "medium" else per
+        step = 2 if stream in ("medium", "big") else per
         for s in range(0, n, step):
             payloads.append(dict(prop=prop, tier=tier, seed=seed, stream=stream, start=s, count=min(step, n - s), bindir=b["asan"]))
-    payloads.sort(key=lambda p: 0 if p["stream"] in ("medium", "planted-unb") else 1)
+    payloads.sort(key=lambda p: 0 if p["stream"] in ("medium", "big", "planted-unb") else 1)
     for part in run.pool_map("checks.solvefam", "chunk", payloads):
         rep.merge(part)
     return rep.finish(floor=100)
